@@ -217,19 +217,27 @@ def build(case):
             f = "f%d" % slot
             what = stp["what"]
             failed_since_quiesce = True
+            # half of the failing opens/creates carry hints (an MPI_Info the library has to combine, duplicate and release)
+            ikw = {}
+            if (stp.get("seed", len(stp.get("name", ""))) + slot) % 2 == 0:
+                if not info.get("have_info"):
+                    p.s.op("info", i="i9", **{"h__nc_var_align_size": hx("8"), "h__nc_header_read_chunk_size": hx("1024")})
+                    info["have_info"] = True
+                ikw = {"info": "i9"}
+                labels.add("bad_open_with_hints")
             if what == "missing":
-                p.op("open", step=True, f=f, path=hx("nope%d.nc" % stp["seed"]), mode=0, expect=M.E["ENOENT"])
+                p.op("open", step=True, f=f, path=hx("nope%d.nc" % stp["seed"]), mode=0, expect=M.E["ENOENT"], **ikw)
             elif what == "noclobber":
                 if stp["name"] not in files or stp["name"] in [s["name"] for s in slots.values()]:
                     continue
-                p.op("create", step=True, f=f, path=hx(stp["name"]), mode=4, expect=M.E["EEXIST"])
+                p.op("create", step=True, f=f, path=hx(stp["name"]), mode=4, expect=M.E["EEXIST"], **ikw)
             else:
                 name = "junk%d" % stp["seed"]
                 data = {"garbage": bytes((stp["seed"] * 7 + j * 13) % 251 for j in range(200)), "empty": b"", "truncated": b"CDF\x01\x00\x00\x00\x00\x00\x00\x00\x0a\x00\x00\x00\x05\x00\x00"}[what]
                 p.s.op("writefile", ranks=[0], path=hx(name), hex=data if data else None)
                 if k > 1:
                     p.op("barrier", expect=None)
-                n = p.s.op("open", step=True, f=f, path=hx(name), mode=0)
+                n = p.s.op("open", step=True, f=f, path=hx(name), mode=0, **ikw)
                 # any netCDF error is fine (NC_ENOTNC, NC_EFILE ...), success is not
                 p.check(lambda res, n=n, what=what: [{"kind": "rc", "msg": "open of a %s file returned %s" % (what, res.rc(n, r)), "sig": {"kind": "bad_open_rc", "what": what}}
                                                       for r in range(k) if res.rc(n, r) in (0, None)])
